@@ -286,16 +286,7 @@ theorem tr_ok (C : Cx) (hwt : WT C.sch C.env) (hL : LikeOK C.L C.d) : ∀ (e : E
       have g := ih mx hf.1 hx
       by_cases hs : valueSorted x = true
       · obtain ⟨c, t, n, s, rfl, hc, hv⟩ := g.val hs
-        have hpg : C.d.isPg = true → t = .bool → c ≠ .attr → nn C.sch x = true := by
-          intro h1 h2 h3
-          have h4 := hf.2; simp only [hs, if_true] at h4
-          have hty : trTy C.sch C.d x = .bool := by rw [trTy_of_ok hx, h2]; rfl
-          have hna : isAttr x = false := by
-            cases hh : isAttr x with
-            | false => rfl
-            | true => exact absurd (hc.2 hh) h3
-          simpa [h1, hty, hna] using h4
-        have hn := negate_val (cls := c) hs hv hpg
+        have hn := negate_val (cls := c) hs hv
         have hsh := negate_val_shape C.d c t n s
         refine ⟨?_, by simpa [valueSorted] using hsh⟩
         rw [MonadOK_of_isCond hsh]
